@@ -878,6 +878,18 @@ class Program:
                     isinstance(x, ast.Constant) and isinstance(x.value, str) for x in v.elts):
                 return [x.value for x in v.elts]
             return None
+        def column_of(v, i):
+            """column i of a literal table of rows (tuple of tuples), module- or class-level"""
+            if isinstance(v, ast.Name):
+                v = module_constants(f.module).get(v.id)
+            elif isinstance(v, ast.Attribute) and isinstance(v.value, ast.Name) and v.value.id in ('self', 'cls') and \
+                    f.cls is not None:
+                v = self._class_table(f.cls, v.attr)
+            if isinstance(v, (ast.Tuple, ast.List)) and v.elts and all(
+                    isinstance(r_, (ast.Tuple, ast.List)) and len(r_.elts) > i and isinstance(r_.elts[i], ast.Constant)
+                    and isinstance(r_.elts[i].value, str) for r_ in v.elts):
+                return [r_.elts[i].value for r_ in v.elts]
+            return None
         out = None
         for n in ast.walk(f.node):
             if isinstance(n, (ast.For, ast.comprehension)) and isinstance(n.target, ast.Name) and n.target.id == e.id:
@@ -885,8 +897,18 @@ class Program:
                 if ss is None:
                     return None
                 out = (out or []) + ss
+            elif isinstance(n, (ast.For, ast.comprehension)) and isinstance(n.target, ast.Tuple) and \
+                    any(isinstance(t_, ast.Name) and t_.id == e.id for t_ in n.target.elts):
+                # for name, factor in TABLE: the names are a column of the table
+                i_ = [k_ for k_, t_ in enumerate(n.target.elts) if isinstance(t_, ast.Name) and t_.id == e.id][0]
+                ss = column_of(n.iter, i_)
+                if ss is None:
+                    return None
+                out = (out or []) + ss
             elif isinstance(n, ast.Name) and n.id == e.id and isinstance(n.ctx, ast.Store) and not (
-                    isinstance(parent(n), (ast.For, ast.comprehension)) and parent(n).target is n):
+                    isinstance(parent(n), (ast.For, ast.comprehension)) and parent(n).target is n) and not (
+                    isinstance(parent(n), ast.Tuple) and isinstance(parent(parent(n)), (ast.For, ast.comprehension))
+                    and parent(parent(n)).target is parent(n)):
                 return None         # assigned elsewhere too
         if e.id in f.all_params:
             return None
